@@ -40,6 +40,7 @@ global:
     region: r1
 rule_files:
   - /etc/rules/*.yml
+  - rules/relative-*.yml
 alerting:
   alert_relabel_configs:
     - source_labels: [severity]
@@ -117,7 +118,7 @@ scrape_configs:
         port: 9100
         refresh_interval: 45s
     file_sd_configs:
-      - files: ["/etc/sd/*.json"]
+      - files: ["/etc/sd/*.json", "sd/relative-*.json"]
         refresh_interval: 2m
 remote_write:
   - url: http://rw1/api/write
@@ -479,6 +480,31 @@ func init() {
 						&c16Replay{Property: "C16", Clause: "sidecar-same-hash", Path: e.Path, B: e.Text, HashA: h, HashB: sh})
 				}
 				r.Counters["cross_process_comparisons"]++
+			}
+		}
+		// (1b) the same bytes read from a file (coordinator with --config.file, in two different
+		// directories) and pushed raw (sidecar): one hash
+		if c.Part == 0 {
+			idx++
+			var hs []string
+			for _, sub := range []string{"etc-a", "mnt/b/c"} {
+				d := filepath.Join(scratch, "c16dir", sub)
+				os.MkdirAll(d, 0o755)
+				f := filepath.Join(d, "prometheus.yml")
+				os.WriteFile(f, []byte(c16Base), 0o644)
+				m := prom.NewConfigManager()
+				if err := m.ReloadFromFile(f); err != nil {
+					chk.Fatalf("ReloadFromFile: %v", err)
+				}
+				hs = append(hs, m.ConfigInfo().ConfigHash)
+			}
+			os.RemoveAll(filepath.Join(scratch, "c16dir"))
+			sh, _ := c16ServiceHash(c16Base)
+			r.States++
+			r.Transitions += 3
+			if hs[0] != baseHash || hs[1] != baseHash || sh != baseHash {
+				r.Violate("C16:source-dependent", "same-content-same-hash", fmt.Sprintf("same bytes: raw %s, file in dir A %s, file in dir B %s, sidecar %s", baseHash, hs[0], hs[1], sh), idx,
+					&c16Replay{Property: "C16", Clause: "same-content-same-hash", A: c16Base, HashA: baseHash, HashB: hs[0] + " / " + hs[1] + " / " + sh})
 			}
 		}
 		// (2) formatting-only and external-label variants of the base and of some edited documents
